@@ -280,7 +280,7 @@ def run_minor(block, ctx):
                 vc["T"] = case["T"]
             ctx.viol(vc, msg, dev=dev, site=site)
             ctx.maxi(site, dev)
-        if case["e"] >= 0.98 or abs(case["dt"]) <= 0.5:
+        if case["e"] >= 0.98 or abs(case["dt"]) <= 0.5 or "revolutions" in case:
             ctx.nt_count += 1
         ctx.outcome((case["e"], len(res)))
         ctx.obs(case, len(res))
@@ -634,6 +634,22 @@ def run_alignment(block, ctx):
     ctx.sample(block[0])
 
 
+# -- periodic bodies seconds to minutes after a LATER perihelion passage (mean anomaly wraps, light time straddles it) ---
+
+def return_cases():
+    """t - T = k P + d for k in {-2, -1, 1, 2, 5} revolutions and d from -1e-3 to +0.02 day: the instant itself lies
+    after the k-th return to perihelion while the light-time-retarded instant lies before it (or both just after)."""
+    out = []
+    for q, e in ((0.5871018, 0.9672746), (2.2091404, 0.8502196 * 0 + 0.5), (0.34, 0.85), (1.0, 0.1)):
+        a = q / (1.0 - e)
+        P = 365.2568983 * a * math.sqrt(a)
+        for o in ORIENT[1:3]:
+            for k in (-2, -1, 1, 2, 5):
+                for d in (-1e-3, 1e-6, 1e-4, 1e-3, 3e-3, 0.02):
+                    out.append({"q": q, "e": e, "orient": list(o), "dt": k * P + d, "revolutions": k})
+    return out
+
+
 def clauses(tier):
     if tier == "thorough":
         js = [y2jde(y) + ph for y in range(-2000, 4000, 5) for ph in (0.0, 31.1, 62.3, 91.3, 121.9, 152.2, 183.7,
@@ -666,6 +682,8 @@ def clauses(tier):
                lambda c: [m for _, m, _ in check_minor(c)], floor=500),
         Clause("minor_close_approach", chunks(close_cases(), 16), run_close,
                lambda c: [m for _, m, _ in check_minor(c)], floor=200),
+        Clause("minor_perihelion_returns", chunks(return_cases(), 16), run_minor,
+               lambda c: [m for _, m, _ in check_minor(c)], floor=100),
         Clause("minor_far_epochs", chunks(far_cases(), 8), run_minor,
                lambda c: [m for _, m, _ in check_minor(c)], floor=100),
         Clause("minor_close_sequence", chunks([c for c in close_cases() if c["gap"] <= 0.01 and c["dt"] in (0.0, 3.0)], 16),
